@@ -49,12 +49,20 @@ func TestC18(t *testing.T) {
 	seed := hx.Seed()
 	rng := rand.New(rand.NewSource(seed))
 	out := hx.NewOut()
-	defer out.Close("four tolerated-failure boundaries on the real keepers x failure points. attestation: every claim type (bridge token new / existing / FX with wrong decimals / FX ok, oracle set missing / nonce 0, send-to-fx, bridge call, bridge call result). inbound bridge call (real ExecuteClaim): 0..3 tokens, refund ==/<> receiver, funded or not, memo send-call-to, target without code; revert, store+revert, invalid opcode, out of gas at several gas caps, successful code under a too small gas cap, insufficient balance for the call value, disabled pair at the first/middle/last token, unknown token. gov (real EndBlocker): 1..4 messages (bank sends, contract calls that write storage), the failing one first/middle/last: overdrawn send, reverting / store+revert / invalid / out-of-gas contract, address without code, a handler that PANICS after a write (MsgVerifyInvariant on a broken invariant). IBC receive, each scenario through the mimicked core AND through the real ibc-go core RecvPacket over the localhost client: bridged voucher / FX coin, hex / bech32 receiver, foreign voucher, receive disabled, disabled pair, memo that is not a call, invalid memo, call revert / store+revert / invalid / out of gas / insufficient balance / CallEVM error. monitors: key-level multistore dump after the failure == dump of the designated outcome applied on a fresh branch of the same pre-state; acknowledgement kind; proposal status. correspondence: bank-level model (bci), compositions compiled from call lists (att/gov/ibc), and Model.C18P.exec on the regenerated structured programs (patt/pgov/pbci/pibc: which leaves' effects are in the state). non-trivial = distinct (boundary, failure point, configuration)")
+	defer out.Close("four tolerated-failure boundaries on the real keepers x failure points. attestation: every claim type (bridge token new / existing / FX with wrong decimals / FX ok, oracle set missing / nonce 0, send-to-fx, bridge call, bridge call result). inbound bridge call (real ExecuteClaim): 0..3 tokens, refund ==/<> receiver, funded or not, memo send-call-to, target without code; revert, store+revert, invalid opcode, out of gas at several gas caps, successful code under a too small gas cap, insufficient balance for the call value, disabled pair at the first/middle/last token, unknown token. gov (real EndBlocker): 1..4 messages (bank sends, contract calls that write storage), the failing one first/middle/last: overdrawn send, reverting / store+revert / invalid / out-of-gas contract, address without code, a handler that PANICS after a write (MsgVerifyInvariant on a broken invariant). IBC receive, each scenario through the mimicked core AND through the real ibc-go core RecvPacket over the localhost client: bridged voucher / FX coin, hex / bech32 receiver, foreign voucher, receive disabled, disabled pair, memo that is not a call, invalid memo, call revert / store+revert / invalid / out of gas / insufficient balance / CallEVM error. monitors: key-level multistore dump after the failure == dump of the designated outcome applied on a fresh branch of the same pre-state; acknowledgement kind; proposal status. correspondence: bank-level model (bci), compositions compiled from call lists (att/gov/ibc), and Model.C18P.exec on the regenerated structured programs (patt/pgov/pbci/pibc: which leaves' effects are in the state). round 3: the crosschain boundaries run on eth / bsc / tron in turn; the refund of a failed contract call failing itself (no observed external height: hard failure, ExecuteClaim must return the error) at keeper level and through the real executeClaim precompile as an included transaction; a panicking attestation handler (batch-executed event for an unknown batch) on a transaction-like branch; blocks of proposals ending together (pgovb); pxc = Model.C18P.exec on executeClaimPrecompileProg. non-trivial = distinct (boundary, failure point, configuration)")
 
 	nseq := hx.N(12, 60)
 	for i := 0; i < nseq; i++ {
 		s := hx.NewSuite(t, 1+rng.Intn(3))
+		// the crosschain boundaries are exercised on three bridged chains in turn (tron: base58 external addresses)
 		e := &env{s: s, rng: rng, chain: "eth", k: s.App.EthKeeper, keys: s.App.GetKVStoreKey()}
+		switch i % 3 {
+		case 1:
+			e.chain, e.k = "bsc", s.App.BscKeeper
+		case 2:
+			e.chain, e.k = "tron", s.App.TronKeeper
+		}
+		out.Count("chain:" + e.chain)
 		e.k.SetLastObservedBlockHeight(s.Ctx, 1000, uint64(s.Ctx.BlockHeight()))
 		e.round = i
 		out.Reset()
@@ -87,7 +95,7 @@ func ints(xs []sdkmath.Int) string {
 // ---------------------------------------------------------------------------------------------------------
 // boundary 2: inbound bridge call whose contract call fails
 
-var bciFails = []string{"none", "nocontract", "revert", "storerevert", "invalid", "oog", "oogsmall", "insufficient", "conv", "pre"}
+var bciFails = []string{"none", "nocontract", "revert", "storerevert", "invalid", "oog", "oogsmall", "insufficient", "conv", "pre", "refundfail", "refundfail-conv"}
 
 type bciCfg struct {
 	same     bool
@@ -109,7 +117,7 @@ func (e *env) runBCI(out *hx.Out, round int) {
 				rf = 1000
 			}
 			ntok := 1 + e.rng.Intn(3)
-			if f != "conv" && f != "pre" && e.rng.Intn(6) == 0 {
+			if f != "conv" && f != "pre" && f != "refundfail-conv" && e.rng.Intn(6) == 0 {
 				ntok = 0 // no tokens at all: baseCoins.IsZero()
 			}
 			cfgs = append(cfgs, bciCfg{same, rf, ntok, f, f != "insufficient" && e.rng.Intn(4) == 0})
@@ -147,6 +155,7 @@ func (e *env) bci(out *hx.Out, c bciCfg) {
 		value := sdkmath.ZeroInt()
 		gasCap := int64(0)
 		call := "ok"
+		refundFails := false
 		switch fail {
 		case "revert":
 			code, call = codeRevert, "revert"
@@ -162,6 +171,16 @@ func (e *env) bci(out *hx.Out, c bciCfg) {
 			gasCap = 21_000 + int64(e.rng.Intn(20_000)) // the otherwise successful callback runs out of gas before / in its SSTORE
 		case "insufficient":
 			value, call = sdkmath.NewInt(1_000_000), "insufficient" // the callback sender cannot pay the call value
+		case "refundfail":
+			// the contract call fails AND the refund of that failure fails (no external height observed yet: the refund
+			// record cannot get a timeout), after the credited coins were moved and converted back: a HARD failure
+			code, call = codeStoreRevert, "revert"
+			refundFails = true
+		case "refundfail-conv":
+			failIdx = e.rng.Intn(ntok)
+			e.setPairEnabled(toks[failIdx], false)
+			call = "-"
+			refundFails = true
 		case "conv":
 			failIdx = e.rng.Intn(ntok) // first / middle / last
 			if forcedIdx >= 0 {
@@ -209,6 +228,9 @@ func (e *env) bci(out *hx.Out, c bciCfg) {
 			Data: "", Value: value, Memo: memo, TxOrigin: txOrigin,
 		}
 		e.k.SavePendingExecuteClaim(ctx, claim)
+		if refundFails {
+			e.k.SetLastObservedBlockHeight(ctx, 0, uint64(ctx.BlockHeight()))
+		}
 		origCp := ctx.ConsensusParams()
 		if gasCap > 0 {
 			cp := ctx.ConsensusParams()
@@ -285,7 +307,7 @@ func (e *env) bci(out *hx.Out, c bciCfg) {
 		} else if fail != "none" && fail != "pre" {
 			mfail = "fail"
 		}
-		if ntok > 0 && !c.memoCall { // the bank-level model (Model/C18.BC): receiver = call target
+		if ntok > 0 && !c.memoCall && !refundFails { // the bank-level model (Model/C18.BC): receiver = call target
 			out.Emit(fmt.Sprintf("bci %d %d %s %s", sm, rfund, ints(amts), mfail),
 				fmt.Sprintf("res=%s recv=%s refund=%s erc=%s records=%d pending=%d", tag, ints(recv), ints(rf), ints(erc), nrec, pend))
 		}
@@ -302,7 +324,7 @@ func (e *env) bci(out *hx.Out, c bciCfg) {
 			}
 			return fmt.Sprint(i)
 		}
-		out.Emit(fmt.Sprintf("pbci %d %s %s %d %d %s %d %d 1", ntok, dash(preIdx), dash(failIdx), b01(fail != "nocontract"), b01(c.memoCall), call, sm, b01(ntok == 0)),
+		out.Emit(fmt.Sprintf("pbci %d %s %s %d %d %s %d %d %d", ntok, dash(preIdx), dash(failIdx), b01(fail != "nocontract"), b01(c.memoCall), call, sm, b01(ntok == 0), b01(!refundFails)),
 			fmt.Sprintf("res=%s pending=%d refund=%d moved=%d erc=%d slot=%d", tag, pend, nrec, moved, nerc, slot))
 		point := fail
 		if failIdx >= 0 {
@@ -334,6 +356,16 @@ func (e *env) bci(out *hx.Out, c bciCfg) {
 			}
 			if fail != "pre" && tag != "ok" {
 				out.Violate(fmt.Sprintf("bridge-call-in: harness scenario %s expected to succeed: %s", fail, firstLine(res)))
+			}
+			return
+		}
+		if refundFails {
+			// hard failure: ExecuteClaim must return the error (the native action / transaction reverts as a whole)
+			out.Count("bci:refund-fails:" + tag)
+			if tag != "err" {
+				out.Violate(fmt.Sprintf("bridge-call-in: the refund of a failed contract call failed but ExecuteClaim returned nil, partial writes of the failure path are committed (point=%s; differing=%s; %s)", point, joinOrDash(categories(diffKV(after, before), e.chain)), cfgs))
+			} else if len(diffKV(after, before)) != 0 {
+				out.Violate("bridge-call-in: reverted native action left writes behind: " + joinOrDash(categories(diffKV(after, before), e.chain)))
 			}
 			return
 		}
@@ -393,7 +425,7 @@ func firstLine(s string) string {
 
 func (e *env) runAtt(out *hx.Out) {
 	// every claim type, with a failing handler wherever the handler of that type can fail
-	for _, kind := range []string{"ok", "exists", "fxdecimals", "fxok", "oraclesetmissing", "oraclesetzero", "sendtofx", "bridgecall", "bridgecallresult"} {
+	for _, kind := range []string{"ok", "exists", "fxdecimals", "fxok", "oraclesetmissing", "oraclesetzero", "sendtofx", "bridgecall", "bridgecallresult", "batchpanic"} {
 		e.att(out, kind, 1+e.rng.Intn(4))
 	}
 }
@@ -433,6 +465,9 @@ func (e *env) att(out *hx.Out, kind string, nOracles int) {
 			claim, hcat = &crosschaintypes.MsgSendToFxClaim{EventNonce: nonce, BlockHeight: 2000, TokenContract: e.ext(e.randAddr()), Amount: sdkmath.NewInt(5), Sender: e.ext(e.randAddr()), Receiver: sdk.AccAddress(e.randAddr().Bytes()).String(), ChainName: e.chain}, "pendingClaim"
 		case "bridgecall":
 			claim, hcat = &crosschaintypes.MsgBridgeCallClaim{EventNonce: nonce, BlockHeight: 2000, Sender: e.ext(e.randAddr()), Refund: e.ext(e.randAddr()), To: e.ext(e.randAddr()), Value: sdkmath.ZeroInt(), TxOrigin: e.ext(e.randAddr()), ChainName: e.chain}, "pendingClaim"
+		case "batchpanic":
+			// a batch-executed event for a batch that does not exist: the handler PANICS (not an error): not tolerated
+			claim = &crosschaintypes.MsgSendToExternalClaim{EventNonce: nonce, BlockHeight: 2000, BatchNonce: uint64(50 + e.rng.Intn(50)), TokenContract: e.ext(e.randAddr()), ChainName: e.chain}
 		case "bridgecallresult":
 			claim, hcat = &crosschaintypes.MsgBridgeCallResultClaim{EventNonce: nonce, BlockHeight: 2000, Nonce: 1, TxOrigin: e.ext(e.randAddr()), Success: true, ChainName: e.chain}, "pendingClaim"
 		}
@@ -443,6 +478,32 @@ func (e *env) att(out *hx.Out, kind string, nOracles int) {
 		observed := false
 		for _, o := range oracles {
 			pre = dumpKV(ctx, e.keys)
+			if kind == "batchpanic" {
+				// as baseapp runs the claim transaction: on a branch that is dropped when the message panics
+				tx, write := ctx.CacheContext()
+				res := hx.Try(func() error { _, err := k.Attest(tx, o, claim); return err })
+				if strings.HasPrefix(res, "panic:") {
+					observed = true // the vote that reaches the threshold
+					after := dumpKV(ctx, e.keys)
+					out.Emit("patt - panic", "flow=panic cats="+joinOrDash(categories(diffKV(pre, after), e.chain)))
+					out.Count("att:" + kind)
+					out.Count("att:claim:MsgSendToExternalClaim")
+					out.Nontrivial(fmt.Sprintf("att|%s|oracles=%d", kind, nOracles))
+					break
+				}
+				if res != "ok" {
+					out.Violate("attestation: Attest failed: " + firstLine(res))
+					return
+				}
+				write()
+				if att := k.GetAttestation(ctx, nonce, claim.ClaimHash()); att != nil && att.Observed {
+					observed = true
+					out.Emit("patt - panic", "flow=brk cats="+joinOrDash(categories(diffKV(pre, dumpKV(ctx, e.keys)), e.chain)))
+					out.Violate("attestation: a PANIC of the handler (batch-executed event for an unknown batch) was swallowed and the event is marked observed; writes of the panicking handler may be committed: " + joinOrDash(categories(diffKV(pre, dumpKV(ctx, e.keys)), e.chain)))
+					break
+				}
+				continue
+			}
 			// designated outcome computed on a branch BEFORE the vote (a branch reads through to later parent writes):
 			// the vote's own bookkeeping + observed mark + last observed nonce/height
 			bctx, _ := ctx.CacheContext()
@@ -1276,7 +1337,7 @@ func (e *env) runXC(out *hx.Out) {
 	if e.signer == nil {
 		e.signer = e.s.AddTestSigner(1000)
 	}
-	for _, sc := range []string{"bc-ok", "bc-revert", "bc-unknown-token", "bc-unknown-token", "bc-module-sender", "stf-ok", "stf-unknown-token"} {
+	for _, sc := range []string{"bc-ok", "bc-revert", "bc-unknown-token", "bc-unknown-token", "bc-module-sender", "bc-revert-refund-fails", "stf-ok", "stf-unknown-token"} {
 		e.xc(out, sc)
 	}
 }
@@ -1299,10 +1360,16 @@ func (e *env) xc(out *hx.Out, sc string) {
 		point := sc
 		var claim crosschaintypes.ExternalClaim
 		switch sc {
-		case "bc-ok", "bc-revert", "bc-unknown-token", "bc-module-sender":
+		case "bc-ok", "bc-revert", "bc-unknown-token", "bc-module-sender", "bc-revert-refund-fails":
 			code := codeStoreSuccess
-			if sc == "bc-revert" {
+			if sc == "bc-revert" || sc == "bc-revert-refund-fails" {
 				code = codeStoreRevert
+			}
+			if sc == "bc-revert-refund-fails" {
+				// the tolerated failure's own designated outcome cannot be written (no observed external height: no
+				// timeout for the refund record): the whole transaction must fail and leave the claim pending
+				e.k.SetLastObservedBlockHeight(ctx, 0, uint64(ctx.BlockHeight()))
+				hard = true
 			}
 			if err := s.App.EvmKeeper.CreateContractWithCode(ctx, target, code); err != nil {
 				panic(err)
